@@ -80,6 +80,10 @@ type vpSession struct {
 	user, pw   string
 	reqNt      bool
 	processed  int
+	// go-ntlm (V2Session.fetchResponseKeys) derives the response key from (user named in the message,
+	// password from SetUserInfo) at the FIRST ProcessAuthenticateMessage of a session and keeps it
+	keyCached      bool
+	keyUser, keyPw string
 }
 
 var vpSessions []*vpSession
@@ -113,17 +117,40 @@ func (s *vpSession) GenerateChallengeMessage() (*ntlm.ChallengeMessage, error) {
 		ServerChallenge: make([]byte, 8), TargetInfo: &ntlm.AvPairs{}, Version: &ntlm.VersionStruct{}}, nil
 }
 
-// ProcessAuthenticateMessage contract: nil iff the response in the message was computed from the
-// password given to SetUserInfo and THIS session's challenge. The client's knowledge is modelled by
-// vpClientPw/vpClientSess: the response was computed from password vpClientPw for session vpClientSess.
+// ProcessAuthenticateMessage contract (go-ntlm ntlmv2.go as read): the expected response is computed
+// from this session's challenge and the session's response key; the key is NTOWFv2(user named in the
+// message, password from SetUserInfo), computed on the first call and cached in the session. The
+// client's proof is described by what it was computed from: key of (vpProofUser, vpProofPw) and the
+// challenge of server session vpClientSess. Nil iff the two agree.
 var (
-	vpClientPw   string
-	vpClientSess int
+	vpProofUserSel int    // 0: the name the message carries, 1: "ab", 2: "ef"
+	vpMsgUser      string // the name the current message carries
+	vpProofPwId    int    // see vpPwId
+	vpClientSess   int
 )
+
+// vpPwId numbers the passwords around (0 = none/empty).
+func vpPwId(p string) int {
+	switch p {
+	case "pw-ab":
+		return 1
+	case "pw-ef":
+		return 2
+	case "":
+		return 0
+	}
+	return 3
+}
 
 func (s *vpSession) ProcessAuthenticateMessage(am *ntlm.AuthenticateMessage) error {
 	s.processed++
-	if s.negotiated && s.pw == vpClientPw && s.id == vpClientSess {
+	if !s.keyCached {
+		s.keyCached = true
+		s.keyUser, s.keyPw = am.UserName.String(), s.pw
+	}
+	// branch-free: the proof matches iff it was made under the cached key's user name and password
+	sameUser := vpOr(vpAnd(vpProofUserSel == 0, s.keyUser == vpMsgUser), vpOr(vpAnd(vpProofUserSel == 1, s.keyUser == "ab"), vpAnd(vpProofUserSel == 2, s.keyUser == "ef")))
+	if vpAnd(vpAnd(s.negotiated, sameUser), vpAnd(vpPwId(s.keyPw) == vpProofPwId, s.id == vpClientSess)) {
 		return nil
 	}
 	return errors.New("Could not authenticate")
